@@ -759,6 +759,11 @@ class PEval:
                 inner.set(v)
                 return
             inner = deref(inner)
+            if isinstance(v, Struct) and v.adt == "#Into" and isinstance(inner, (Struct, Enum)) and not inner.adt.startswith("#"):
+                # `*place = x.into()` with a generic target: the place's own type says which `From` impl runs
+                src_ = v.fields["v"]
+                cand = self.lib.fn("<%s as core::convert::From<%s>>::from" % (inner.adt, src_.adt)) if isinstance(src_, (Struct, Enum)) else None
+                v = self.call_fn(cand, [src_], depth + 1) if cand is not None and thir.body_of(cand) else (src_ if isinstance(src_, type(inner)) and src_.adt == inner.adt else UNKNOWN)
             if isinstance(inner, (Struct, Enum)) and isinstance(v, type(inner)):
                 # `*self = value`: overwrite the shared object in place
                 if isinstance(inner, Enum):
@@ -996,6 +1001,9 @@ class PEval:
                 cand = self.lib.fn("<%s as core::convert::From<%s>>::from" % (ty_to, tf))
                 if cand is not None and thir.body_of(cand):
                     return self.call_fn(cand, args, depth + 1)
+            if dyn and "::" not in ty_to and ty_to not in ("str", "bool", "char") and not re.fullmatch(r"[iuf](8|16|32|64|128|size)", ty_to or ""):
+                # the target is a generic parameter (`T: From<X>`): decided where the value is stored (see `store`)
+                return Struct("#Into", {"v": v0})
         local = self.lib.fn(path)
         if (local is None or not thir.body_of(local)) and args and not path.startswith("<"):
             # a trait method called on `Self` / a generic: dispatch on the abstract receiver's type
